@@ -139,7 +139,8 @@ TGExitStep(q, tg, t) ==
             THEN [q |-> SetPc(ScopeEnter(q1, t, FALSE, INF, FALSE,
                                          [n |-> 0, kind |-> "gwait", cl |-> 0, dl |-> INF]), t, "loop"),
                   tg |-> tg1]
-            ELSE [q |-> Call(q1, t, "nochild", Frame("csc", "start", 0, 0)), tg |-> tg1]
+            ELSE \* no children: one cancel-shielded checkpoint, then look again (fix F12)
+                 [q |-> Call(q1, t, "nochild", Frame("csc", "start", 0, 0)), tg |-> tg1]
     [] pc = "loop" ->
          IF tg.G[t].tasks # {}
          THEN [q |-> SuspendFut(q, t, "woke"), tg |-> [tg EXCEPT !.G[t].waiting = TRUE]]
@@ -160,6 +161,11 @@ TGExitStep(q, tg, t) ==
          THEN LET r == ScopeExit(q, t, Reg(q, t)) IN
               [q |-> IF IsExc(r.reg) THEN Raise(r.q, t, r.reg) ELSE Ret(r.q, t),
                tg |-> [tg EXCEPT !.G[t].active = FALSE, !.G[t].excs = {}]]
+         ELSE IF tg.G[t].tasks # {}
+         THEN \* tasks were started in the group during the checkpoint: wait for them
+              [q |-> SetPc(ScopeEnter(q, t, FALSE, INF, FALSE,
+                                      [n |-> 0, kind |-> "gwait", cl |-> 0, dl |-> INF]), t, "loop"),
+               tg |-> tg]
          ELSE finish(q, tg, xv)
 
 \* TaskGroup.start() (:936-973).  Frame: a = child, b = [h |-> group host, exc |-> pending exception]
